@@ -8,6 +8,7 @@ hash is the zero root would be rehashed on every request (`C07_zero_hash_counter
 SHA-256 this is an assumption about the hash function, listed in the trusted base.
 -/
 import ZtypV.Proofs.HeapCost
+import ZtypV.Proofs.HeapExpand
 namespace ZtypV.Props.C07
 open ZtypV ZtypV.H
 
@@ -119,6 +120,38 @@ example : (run exHash (Prog.root1 6) (run exHash (setPath [false, true] 4 2) exH
     (by decide)).2
   · intro y m l r _ hy; exact allMemoB_sound (by decide : allMemoB exHeapAll = true) y m l r hy
   · intro y m l r _ hy; exact allMemoB_sound (by decide : allMemoB exHeapAll = true) y m l r hy
+
+/-- The same for a mutation that grows into a collapsed zero subtree
+    (`DeeperSetter(…, expand = true)`, e.g. list append): a zero-summary leaf on the path is expanded
+    with the shared zero leaves `zs d = &ZeroHashes[d]` as siblings; the throw-away pair the code
+    allocates on the way is never hashed.  Nothing is hashed while building, no existing cell is
+    touched, and the new root costs at most one hash call per level. -/
+theorem C07_path_expand (h : HashFn) {hp : Heap} (hw : WF hp) (zs : Nat → Nat)
+    (hzs : ∀ d, ∃ r, hp[zs d]? = some (Cell.leaf r)) {path : List Bool} {x y x' : Nat}
+    (hfx : FullyMemo hp x) (hfy : FullyMemo hp y) (hy : y < hp.size)
+    (hrun : (run h (setPathX zs path x y) hp).1 = some (some x')) :
+    (run h (setPathX zs path x y) hp).2.2.calls = 0
+      ∧ (∀ z, z < hp.size → (run h (setPathX zs path x y) hp).2.1[z]? = hp[z]?)
+      ∧ (run h (Prog.root1 x') (run h (setPathX zs path x y) hp).2.1).2.2.calls ≤ path.length := by
+  obtain ⟨pe, hw', sp, hc⟩ :=
+    run_setPathX h zs path x y hp x' hw hzs (topMemo_of_fullyMemo hfy hy) hfx hrun
+  refine ⟨hc, pe.2, ?_⟩
+  rw [run_root1 h (spn_lt sp)]
+  exact spn_cost h hw' sp (x'+1) (Nat.lt_succ_self x')
+
+/-- non-vacuity: in `exHeapZ` hashed, set position [right, left] below node 3 — inside the collapsed
+    zero summary 1 — to the data leaf 2: cells 4 (throw-away), 5, 6 are allocated, root 6 costs 2 -/
+example : (run exHash (setPathX exZs [true, false] 3 2) (run exHash (Prog.root1 3) exHeapZ).2.1).1 = some (some 6)
+    ∧ (run exHash (Prog.root1 6) (run exHash (setPathX exZs [true, false] 3 2)
+        (run exHash (Prog.root1 3) exHeapZ).2.1).2.1).2.2.calls = 2 := by decide
+
+example : (run exHash (Prog.root1 6) (run exHash (setPathX exZs [true, false] 3 2)
+    (run exHash (Prog.root1 3) exHeapZ).2.1).2.1).2.2.calls ≤ [true, false].length := by
+  have hc : MemoClosed (run exHash (Prog.root1 3) exHeapZ).2.1 := memoClosedB_sound (by decide)
+  exact (C07_path_expand exHash (wfB_sound (by decide)) exZs
+    (exZs_leaves _ ⟨z0, by decide⟩ ⟨exHash z0 z0, by decide⟩) (x := 3) (y := 2) (x' := 6)
+    (fullyMemo_of_top hc (topMemoB_sound (by decide)))
+    (fullyMemo_of_top hc (topMemoB_sound (by decide))) (by decide) (by decide)).2.2
 
 /-- "Already hashed" is what a hash-tree-root request establishes: in a heap built by poke-free
     clients from unhashed nodes (`MemoClosed`: a set memo implies the children answer from their memos
